@@ -73,6 +73,14 @@ def scenarios(draw):
     lens = {c[0]: c[1] for c in sc["chroms"]}
     sc["reads"] = [r for r in reads if r.get("c") is None or
                    (r["p"] >= 0 and R.cigar_blocks(r["p"], r["cg"])[-1][1] + 45 < lens[r["c"]])]
+    # feature ids that begin like the statistics lines at the end of the tables ("__ambiguous", ...)
+    if src.bool(0.2):
+        for g in sc["genes"]:
+            if src.bool(0.4):
+                g["id"] = "_" + g["id"]
+            for t in g["transcripts"]:
+                if src.bool(0.3):
+                    t["id"] = "_" + t["id"]
     tq, gq = src.choice(counting.STRATEGIES), src.choice(counting.STRATEGIES)
     norm = src.choice(["simple", "usable_reads"])
     sc["opts"] = ["--data_type", dt, "--no_gzip", "--threads", str(src.choice([1, 2])),
